@@ -348,3 +348,365 @@ Proof.
   - constructor.
   - intros x H. exact H.
 Qed.
+
+(* ================================================================== clauses (B), (C), (D), (F)
+   The other clauses of the judgement, tied to the model the same way: on every history on
+   which the implementation agrees with the model, the clause is a consequence of the model's
+   step theorems (served_from_cache, db_error_not_cached, cache_error_fails_fast,
+   one_query_per_operation, invalidation_never_skipped).  The judgement's bookkeeping is shown
+   to follow the model: its reference database, its view of the injected outages, and the
+   previous store contents (equal to the model's dump up to order). *)
+
+(* --- the model's store lists a key once *)
+Definition ukeys (d : store) : Prop := NoDup (map fst d).
+
+Lemma put_keys_in k e d x : In x (map fst (put k e d)) -> x = k \/ In x (map fst d).
+Proof.
+  induction d as [|[k' e'] d IH]; cbn; [intuition|].
+  destruct (key_eqb k k') eqn:E; cbn.
+  - apply key_eqb_eq in E. subst. intuition.
+  - intros [H|H]; auto. apply IH in H. intuition.
+Qed.
+
+Lemma ukeys_put k e d : ukeys d -> ukeys (put k e d).
+Proof.
+  unfold ukeys. induction d as [|[k' e'] d IH]; cbn; intro U.
+  - constructor; [intros []|constructor].
+  - destruct (key_eqb k k') eqn:E; cbn.
+    + apply key_eqb_eq in E. subst. exact U.
+    + inversion U as [|? ? Hn U']. subst. constructor; [|apply IH; exact U'].
+      intro H. apply put_keys_in in H. destruct H as [H|H]; [|contradiction].
+      subst. rewrite key_eqb_refl in E. discriminate.
+Qed.
+
+Lemma remove_keys_in k d x : In x (map fst (remove k d)) -> In x (map fst d).
+Proof.
+  induction d as [|[k' e'] d IH]; cbn; [auto|].
+  destruct (key_eqb k k'); cbn; intuition.
+Qed.
+
+Lemma ukeys_remove k d : ukeys d -> ukeys (remove k d).
+Proof.
+  unfold ukeys. induction d as [|[k' e'] d IH]; cbn; intro U; [constructor|].
+  inversion U as [|? ? Hn U']. subst.
+  destruct (key_eqb k k'); cbn; [apply IH; exact U'|].
+  constructor; [|apply IH; exact U']. intro H. apply remove_keys_in in H. contradiction.
+Qed.
+
+Lemma ukeys_remove_all ks : forall d, ukeys d -> ukeys (remove_all ks d).
+Proof.
+  unfold remove_all. induction ks as [|k ks IH]; cbn; intros d U; [exact U|].
+  apply IH. apply ukeys_remove. exact U.
+Qed.
+
+Lemma del_on_node_ukeys c n keys s : ukeys (cache s) -> ukeys (cache (del_on_node c n keys s)).
+Proof.
+  intro U. unfold del_on_node. destruct (filter _ keys); [exact U|].
+  destruct (node_down s n); cbn [cache]; [exact U|]. apply ukeys_remove_all. exact U.
+Qed.
+
+Lemma del_keys_ukeys c keys s : ukeys (cache s) -> ukeys (cache (del_keys c keys s)).
+Proof.
+  unfold del_keys. generalize (nodes_of c keys) as ns. intro ns. revert s.
+  induction ns as [|n ns IH]; cbn; intros s U; [exact U|]. apply IH. apply del_on_node_ukeys. exact U.
+Qed.
+
+Lemma die_keys_ukeys c keys n0 s : ukeys (cache s) -> ukeys (cache (die_keys c keys n0 s)).
+Proof. intro U. unfold die_keys, owe. cbn [cache]. apply del_on_node_ukeys. exact U. Qed.
+
+Lemma tick_ukeys s : ukeys (cache s) -> ukeys (cache (tick s)).
+Proof.
+  intro U. unfold tick.
+  assert (G : forall l s0, ukeys (cache s0) -> ukeys (cache (fold_left tick_task l s0))).
+  { induction l as [|tk l IH]; cbn; intros s0 U0; [exact U0|]. apply IH.
+    unfold tick_task. destruct (1 <? trem tk); [exact U0|].
+    destruct (node_down s0 (tnode tk)); [destruct (next_delay (tdelay tk)); exact U0|].
+    cbn [cache]. apply ukeys_remove_all. exact U0. }
+  apply G. exact U.
+Qed.
+
+Lemma step_ukeys c s o : ukeys (cache s) -> ukeys (cache (fst (step c s o))).
+Proof.
+  intro U. destruct o; cbn [step]; unf;
+    try (split_step; cbn [fst set_cache cache fail_node]; repeat apply ukeys_put; exact U).
+  - destruct (dbFault s); [exact U|]. destruct w as [[u v]|]; [destruct (u_taken p u (db s)); [exact U|]|];
+      cbn [fst]; apply del_keys_ukeys; exact U.
+  - cbn [fst]. apply del_keys_ukeys. exact U.
+  - cbn [fst]. apply (iter_tick_inv (fun s' => ukeys (cache s'))); [apply tick_ukeys | exact U].
+  - destruct (dbFault s); [exact U|]. destruct (negb (existsb (Z.eqb n0) (nodes_of c keys))); [exact U|].
+    destruct w as [[u v]|]; [destruct (u_taken p u (db s)); [exact U|]|];
+      cbn [fst]; apply die_keys_ukeys; exact U.
+Qed.
+
+(* --- the injected outages, as the judgement and as the model see them *)
+Definition dbf_after (b0 : bool) (o : op) : bool := match o with ODbFault b => b | _ => b0 end.
+Definition cf_after (l : list Z) (o : op) (q : Z) : list Z :=
+  match o with
+  | OCFault n b => if b then n :: l else filter (fun m => negb (m =? n)) l
+  | OTakeMid _ _ n | OQriMid _ _ n => if 0 <? q then n :: l else l
+  | _ => l
+  end.
+
+Lemma iter_tick_frame n s :
+  dbFault (N.iter n tick s) = dbFault s /\ cfault (N.iter n tick s) = cfault s.
+Proof.
+  apply (N.iter_invariant n state tick (fun s' => dbFault s' = dbFault s /\ cfault s' = cfault s)); auto.
+  intros s' [A B]. destruct (tick_frame s') as (_ & E1 & E2 & _). split; congruence.
+Qed.
+
+Lemma exec_faults c s p w keys :
+  dbFault (fst (exec c s p w keys)) = dbFault s /\ cfault (fst (exec c s p w keys)) = cfault s.
+Proof.
+  unfold exec. destruct (dbFault s) eqn:F; [cbn; auto|].
+  destruct w as [[u v]|]; [destruct (u_taken p u (db s)); [cbn; auto|]|]; cbn [fst];
+    match goal with |- context [del_keys ?a ?b ?x] => destruct (del_keys_frame a b x) as (_ & E1 & E2 & _) end;
+    rewrite E1, E2; cbn; auto.
+Qed.
+
+Lemma exec_die_faults c s p w keys n0 :
+  dbFault (fst (exec_die c s p w keys n0)) = dbFault s /\ cfault (fst (exec_die c s p w keys n0)) = cfault s.
+Proof.
+  unfold exec_die. destruct (dbFault s) eqn:F; [cbn; auto|].
+  destruct (negb (existsb (Z.eqb n0) (nodes_of c keys))); [cbn; auto|].
+  destruct w as [[u v]|]; [destruct (u_taken p u (db s)); [cbn; auto|]|]; cbn [fst];
+    match goal with |- context [die_keys ?a ?b ?n ?x] => destruct (die_keys_frame a b n x) as (_ & E1 & E2 & _) end;
+    rewrite E1, E2; cbn; auto.
+Qed.
+
+Lemma step_faults c s o :
+  dbFault (fst (step c s o)) = dbf_after (dbFault s) o /\
+  cfault (fst (step c s o)) = cf_after (cfault s) o (oqi (snd (step c s o)) + oqp (snd (step c s o))).
+Proof.
+  destruct o; cbn [step dbf_after cf_after];
+    try apply exec_faults; try apply exec_die_faults;
+    unfold query_index_mid, query_index, take_mid, take_primary, load_index, load_primary, get_primary, set_primary;
+    try solve [split_step; cbn in *; try discriminate; split; auto].
+  - cbn [fst snd]. destruct (del_keys_frame c keys s) as (_ & E1 & E2 & _). auto.
+  - cbn [fst snd]. apply iter_tick_frame.
+Qed.
+
+Lemma next_dbf c r o ob : r_dbf (next c r o ob) = dbf_after (r_dbf r) o.
+Proof. unfold next. destruct o; try destruct w; destruct (o_ret ob); reflexivity. Qed.
+
+Lemma next_cf c r o ob : r_cf (next c r o ob) = cf_after (r_cf r) o (o_qi ob + o_qp ob).
+Proof. unfold next. destruct o; try destruct w; destruct (o_ret ob); reflexivity. Qed.
+
+(* --- store contents up to order *)
+Definition deq (a b : list dump_entry) : Prop := sort_dump a = sort_dump b.
+
+Lemma cval_eqb_refl v : cval_eqb v v = true.
+Proof. destruct v; cbn; rewrite ?Z.eqb_refl; reflexivity. Qed.
+
+Lemma de_eqb_refl e : de_eqb e e = true.
+Proof. destruct e as [[k v] t]. cbn. rewrite key_eqb_refl, cval_eqb_refl, Z.eqb_refl. reflexivity. Qed.
+
+Lemma list_eqb_refl {A} (eqb : A -> A -> bool) (R : forall a, eqb a a = true) l : list_eqb eqb l l = true.
+Proof. induction l as [|x l IH]; cbn; [reflexivity|]. rewrite R, IH. reflexivity. Qed.
+
+Lemma dump_eqb_deq a b : dump_eqb a b = true <-> deq a b.
+Proof.
+  unfold dump_eqb, deq. split.
+  - apply (list_eqb_eq de_eqb de_eqb_eq).
+  - intros ->. apply list_eqb_refl. apply de_eqb_refl.
+Qed.
+
+Lemma deq_In a b x : deq a b -> In x a -> In x b.
+Proof. intros H Hi. apply sort_dump_In. rewrite <- H. apply sort_dump_In. exact Hi. Qed.
+
+Lemma dump_same s s' : cache s' = cache s -> clock s' = clock s -> dump s' = dump s.
+Proof. intros A B. unfold dump. rewrite A, B. reflexivity. Qed.
+
+(* agreement of one step *)
+Definition sagree (c : config) (s : state) (o : op) (ob : opobs) : Prop :=
+  ret_eqb (oret (snd (step c s o))) (o_ret ob) = true /\ oqi (snd (step c s o)) = o_qi ob /\
+  oqp (snd (step c s o)) = o_qp ob /\ deq (dump (fst (step c s o))) (o_dump ob).
+
+(* the judgement's whole state follows the model's *)
+Definition linked3 (r : rstate) (s : state) : Prop :=
+  linked r s /\ r_dbf r = dbFault s /\ r_cf r = cfault s /\ ukeys (cache s) /\
+  NoDup (map dkey (r_prev r)) /\ deq (dump s) (r_prev r).
+
+Lemma linked3_linked2 r s : linked3 r s -> linked2 r s.
+Proof.
+  intros (L & _ & _ & _ & U & D). split; [exact L|]. split; [exact U|]. intros x. apply deq_In. exact D.
+Qed.
+
+Lemma next_linked3 c r s o ob :
+  linked3 r s -> sagree c s o ob -> NoDup (map dkey (o_dump ob)) ->
+  linked3 (next c r o ob) (fst (step c s o)).
+Proof.
+  intros (L & F & C & K & _ & _) (A1 & A2 & A3 & A4) U.
+  destruct (step_faults c s o) as [E1 E2].
+  split; [apply next_linked; [exact L | exact A1]|].
+  split; [rewrite next_dbf, F, E1; reflexivity|].
+  split; [rewrite next_cf, C, E2, A2, A3; reflexivity|].
+  split; [apply step_ukeys; exact K|].
+  rewrite next_prev. split; [exact U | exact A4].
+Qed.
+
+(* a clause that follows from the model at every step holds along every agreeing history *)
+Section Clause.
+Variable Q : config -> rstate -> op -> opobs -> bool.
+Hypothesis Qsound : forall c r s o ob,
+  linked3 r s -> NoDup (map dkey (o_dump ob)) -> sagree c s o ob -> Q c r o ob = true.
+
+Fixpoint holds_from (c1 c2 : config) (insts : list bool) (r : rstate) (ops : list op) (obs : list opobs) : bool :=
+  match ops, obs with
+  | o :: ops', ob :: obs' =>
+    let c := pick c1 c2 insts in
+    Q c r o ob && holds_from c1 c2 (tl insts) (next c r o ob) ops' obs'
+  | _, _ => true
+  end.
+
+Lemma agreed_holds_from str c1 c2 : forall ops obs insts r s,
+  linked3 r s -> dumps_unique obs -> agrees_from str c1 c2 insts s ops obs = true ->
+  holds_from c1 c2 insts r ops obs = true.
+Proof.
+  induction ops as [|o ops IH]; intros [|ob obs] insts r s L U A; try reflexivity.
+  cbn [agrees_from] in A. cbn [holds_from].
+  destruct (step (pick c1 c2 insts) s o) as [s' m] eqn:E.
+  apply andb_true_iff in A. destruct A as [A A6]. apply andb_true_iff in A. destruct A as [A A5].
+  apply andb_true_iff in A. destruct A as [A A4]. apply andb_true_iff in A. destruct A as [A A3].
+  apply andb_true_iff in A. destruct A as [A1 A2].
+  assert (SA : sagree (pick c1 c2 insts) s o ob).
+  { unfold sagree. rewrite E. cbn [fst snd]. apply Z.eqb_eq in A2. apply Z.eqb_eq in A3.
+    apply dump_eqb_deq in A5. auto. }
+  inversion U as [|? ? U1 U2]. subst.
+  apply andb_true_iff. split; [eapply Qsound; eauto|].
+  apply (IH obs (tl insts) _ s'); auto.
+  replace s' with (fst (step (pick c1 c2 insts) s o)) by (rewrite E; reflexivity).
+  apply next_linked3; auto.
+Qed.
+End Clause.
+
+Lemma init_linked3 rows : NoDup (map fst rows) -> linked3 (mkR rows false [] [] true [] (init rows)) (init rows).
+Proof.
+  intro ND. split; [split; [reflexivity|]; split; [reflexivity|]; intros _; split; [exact ND | apply init_coh]|].
+  repeat split; try reflexivity; constructor.
+Qed.
+
+(* ------------------------------------------------------------------ clause (C): database errors, one query *)
+Lemma read_dberr_iff c s o : is_read (norm o) = true ->
+  is_dberr (oret (snd (step c s o)))
+  = dbFault s && (0 <? oqi (snd (step c s o)) + oqp (snd (step c s o))).
+Proof.
+  destruct o; try discriminate; intros _; cbn [step]; unf; split_step; cbn in *;
+    try congruence;
+    repeat match goal with H : dbFault s = _ |- _ => rewrite H end;
+    rewrite ?andb_false_r; reflexivity.
+Qed.
+
+Lemma untouched_intro r s s' ob :
+  deq (dump s) (r_prev r) -> dump s' = dump s -> deq (dump s') (o_dump ob) -> untouched r ob = true.
+Proof.
+  intros A B C. unfold untouched. apply dump_eqb_deq. unfold deq in *. rewrite <- A, <- B. exact C.
+Qed.
+
+Lemma is_dberr_eq x : is_dberr x = true -> x = RDbErr.
+Proof. destruct x; cbn; try discriminate; reflexivity. Qed.
+
+Lemma clauseC_sound c r s o ob :
+  linked3 r s -> NoDup (map dkey (o_dump ob)) -> sagree c s o ob -> db_errors r (norm o) ob = true.
+Proof.
+  intros (L & F & C & K & U & D) _ (A1 & A2 & A3 & A4). apply ret_eqb_eq in A1.
+  unfold db_errors. rewrite <- A1, <- A2, <- A3, F.
+  destruct (step_queries c s o) as (Q1 & Q2 & Q3).
+  assert (UT : oret (snd (step c s o)) = RDbErr -> untouched r ob = true).
+  { intro E. destruct (dberr_keeps_data c s o E) as (_ & E1 & _ & _ & E2).
+    apply (untouched_intro r s (fst (step c s o)) ob D); [apply dump_same; auto | exact A4]. }
+  repeat (apply andb_true_iff; split).
+  - apply Z.leb_le. exact Q3.
+  - apply Z.leb_le. exact Q1.
+  - apply Z.leb_le. exact Q2.
+  - destruct (is_dberr (oret (snd (step c s o)))) eqn:E; [|reflexivity]. apply UT. apply is_dberr_eq. exact E.
+  - destruct (is_read (norm o)) eqn:R; [|reflexivity]. rewrite (read_dberr_iff c s o R). apply eqb_reflx.
+  - destruct o; cbn [norm]; try reflexivity.
+    + destruct (dbFault s) eqn:DF; [|reflexivity].
+      assert (E : oret (snd (step c s (OExec p w keys))) = RDbErr) by (rewrite dberr_returned_exec; auto).
+      rewrite E. cbn [is_dberr andb]. apply UT. exact E.
+    + destruct (dbFault s) eqn:DF; [|reflexivity].
+      assert (E : oret (snd (step c s (OExecDie p w keys n0))) = RDbErr) by (rewrite dberr_returned_exec_die; auto).
+      rewrite E. cbn [is_dberr andb]. apply UT. exact E.
+Qed.
+
+(* ------------------------------------------------------------------ clause (F): invalidation *)
+Lemma In_find_some k e d : In (k, e) d -> find k d <> None.
+Proof.
+  induction d as [|[k' e'] d IH]; cbn; [contradiction|].
+  intros [H|H]; destruct (key_eqb k k') eqn:E; try discriminate; auto.
+  inversion H. subst. rewrite key_eqb_refl in E. discriminate.
+Qed.
+
+Lemma dget_In l k v t : dget l k = Some (v, t) -> In (k, v, t) l.
+Proof.
+  induction l as [|[[k' v'] t'] l IH]; cbn; [discriminate|].
+  destruct (key_eqb k k') eqn:E.
+  - intro H. inversion H. subst. apply key_eqb_eq in E. subst. auto.
+  - intro H. right. apply IH. exact H.
+Qed.
+
+Lemma dump_In_cache s k v t : In (k, v, t) (dump s) -> exists e, In (k, e) (cache s) /\ live (clock s) e = true /\ eval e = v.
+Proof.
+  unfold dump. intro H. apply in_flat_map in H. destruct H as ([k0 e] & Hi & Hx).
+  destruct (live (clock s) e) eqn:Lv; [|contradiction]. destruct Hx as [Hx|[]]. inversion Hx. subst.
+  exists e. auto.
+Qed.
+
+Lemma gone_dump s' d k : find k (cache s') = None -> deq (dump s') d -> dget d k = None.
+Proof.
+  intros Hf Hd. destruct (dget d k) as [[v t]|] eqn:E; [|reflexivity]. exfalso.
+  apply dget_In in E. apply (deq_In d (dump s')) in E; [|symmetry; exact Hd].
+  apply dump_In_cache in E. destruct E as (e & Hi & _). apply In_find_some in Hi. contradiction.
+Qed.
+
+Lemma del_keys_gone c keys s k :
+  In k keys -> key_down c s k = false -> find k (cache (del_keys c keys s)) = None.
+Proof.
+  intros Hk KD. destruct (dfold_hit c keys (nodes_of c keys) s k Hk (nodes_of_In c keys k Hk)) as [H1 _].
+  unfold del_keys. apply H1. exact KD.
+Qed.
+
+Lemma die_keys_gone c keys n0 s k :
+  In k (fst (die_split c keys n0)) -> key_down c s k = false -> find k (cache (die_keys c keys n0 s)) = None.
+Proof.
+  intros Hk KD. destruct (die_split_first c keys n0 k Hk) as [_ Hn].
+  destruct (del_on_node_hit c n0 (fst (die_split c keys n0)) s k Hk Hn) as [H1 _].
+  unfold die_keys, owe. cbn [cache]. apply H1. unfold key_down in KD. rewrite Hn in KD. exact KD.
+Qed.
+
+Lemma exec_gone c s p w keys k :
+  oret (snd (step c s (OExec p w keys))) = ROk -> In k keys -> key_down c s k = false ->
+  find k (cache (fst (step c s (OExec p w keys)))) = None.
+Proof.
+  cbn [step]. unfold exec. destruct (dbFault s); [cbn; discriminate|].
+  destruct w as [[u v]|]; [destruct (u_taken p u (db s)); [cbn; discriminate|]|]; cbn [fst snd];
+    intros _ Hk KD; apply del_keys_gone; auto.
+Qed.
+
+Lemma exec_die_gone c s p w keys n0 k :
+  oret (snd (step c s (OExecDie p w keys n0))) = ROk -> In k (fst (die_split c keys n0)) -> key_down c s k = false ->
+  find k (cache (fst (step c s (OExecDie p w keys n0)))) = None.
+Proof.
+  cbn [step]. unfold exec_die. destruct (dbFault s); [cbn; discriminate|].
+  destruct (negb (existsb (Z.eqb n0) (nodes_of c keys))); [cbn; discriminate|].
+  destruct w as [[u v]|]; [destruct (u_taken p u (db s)); [cbn; discriminate|]|]; cbn [fst snd];
+    intros _ Hk KD; apply die_keys_gone; auto.
+Qed.
+
+Lemma clauseF_sound c r s o ob :
+  linked3 r s -> NoDup (map dkey (o_dump ob)) -> sagree c s o ob -> invalidated c r o ob = true.
+Proof.
+  intros (L & F & C & K & U & D) _ (A1 & A2 & A3 & A4). apply ret_eqb_eq in A1. unfold invalidated.
+  assert (G : forall keys,
+            (forall k, In k keys -> key_down c s k = false -> find k (cache (fst (step c s o))) = None) ->
+            forallb (fun k => down c r k || match dget (o_dump ob) k with None => true | Some _ => false end) keys = true).
+  { intros keys H. apply forallb_forall. intros k Hk. unfold down. rewrite C.
+    change (existsb (Z.eqb (node_of c k)) (cfault s)) with (key_down c s k).
+    destruct (key_down c s k) eqn:KD; [reflexivity|]. rewrite (gone_dump _ _ _ (H k Hk KD) A4). reflexivity. }
+  destruct o; try reflexivity; rewrite <- ?A1.
+  - destruct (oret (snd (step c s (OExec p w keys)))) eqn:R; try reflexivity.
+    apply G. intros k Hk KD. apply exec_gone; auto.
+  - apply G. intros k Hk KD. cbn [step fst]. apply del_keys_gone; auto.
+  - destruct (oret (snd (step c s (OExecDie p w keys n0)))) eqn:R; try reflexivity.
+    apply G. intros k Hk KD. apply exec_die_gone; auto.
+Qed.
